@@ -5,6 +5,9 @@ import struct
 
 from checks import common
 
+# this check never reads lean/MjProof/Gen: no generated-code lock needed
+USES_GEN = False
+
 META = {
     "technique": "Lean 4 proof over the reals (loop invariants by induction over the iterations of an executable model of "
                  "least_squares/jacobian_fd with abstract residual, Norm and box-QP oracles) + bit-exact replay correspondence "
